@@ -2,6 +2,7 @@ import NeverModel.Model.Verify
 import NeverModel.Props.C03
 import NeverModel.Lemmas.VmEffect
 import NeverModel.Lemmas.VmEffectSound
+import NeverModel.Lemmas.VmIpSound
 /-!
 # C07 — emitted code is well-formed on every path, executed or not
 
@@ -25,10 +26,25 @@ theorem verify_ok_iff (md : Module) (s : Summary) (h : verify md = .ok s) : ∃ 
   | error e => rw [hv] at h; cases h
   | ok p => rw [hv] at h; obtain ⟨s', hm⟩ := p; simp [Except.map] at h; subst h; exact ⟨hm, rfl⟩
 
+theorem verifyH_ok (md : Module) (s : Summary) (hm : HMap) (h : verifyH md = .ok (s, hm)) :
+    verifyCore md = .ok (s, hm) ∧ flowOk md hm = true := by
+  unfold verifyH at h
+  cases hc : verifyCore md with
+  | error e => rw [hc] at h; cases h
+  | ok p =>
+    obtain ⟨s', hm'⟩ := p
+    rw [hc] at h
+    dsimp only at h
+    by_cases hf : flowOk md hm' = true
+    · simp only [hf, if_true, Except.ok.injEq, Prod.mk.injEq] at h
+      obtain ⟨rfl, rfl⟩ := h; exact ⟨rfl, hf⟩
+    · simp [hf] at h
+
 theorem verified_table_wellformed (md : Module) (s : Summary) (h : verify md = .ok s) :
     ExcWF md.exctab md.excCount = true := by
   obtain ⟨hm, h⟩ := verify_ok_iff md s h
-  unfold verifyH at h
+  obtain ⟨h, _⟩ := verifyH_ok md s hm h
+  unfold verifyCore at h
   simp only [bind, Except.bind] at h
   split at h
   · cases h
@@ -48,7 +64,8 @@ theorem verified_every_fault_has_handler (md : Module) (s : Summary) (h : verify
 /-- a verified module is not empty -/
 theorem verified_nonempty (md : Module) (s : Summary) (h : verify md = .ok s) : md.code.size ≠ 0 := by
   obtain ⟨hm, h⟩ := verify_ok_iff md s h
-  unfold verifyH at h
+  obtain ⟨h, _⟩ := verifyH_ok md s hm h
+  unfold verifyCore at h
   simp only [bind, Except.bind] at h
   split at h
   · cases h
@@ -120,6 +137,65 @@ theorem simple_effect_sound (md : Module) (ins : Instr) (orc : Oracle) (p q : Na
 /-- the table is defined on 198 of the 222 opcodes (operand 1); the rest are the frame opcodes of Lemmas/Frame.lean,
 MK_INIT_ARRAY (handled with constant propagation), JUMP, the FFI opcodes and the placeholders -/
 example : (Opc.all.toList.filter fun op => (simpleEffect { op := op, w0 := 1, w1 := 0, w2 := 0 }).isSome).length = 198 := by decide +kernel
+
+/-- **The height map of a verified module is flow-consistent**: at every reached address that holds an instruction of
+the effect table (any except `JUMPZ`), the operands exist and the height recorded for the next address is
+`h − pops + pushes`. (From the certificate re-check `flowOk` that `verifyH` applies to its own result.) -/
+theorem verified_flow (md : Module) (sm : Summary) (hm : HMap) (hv : verifyH md = .ok (sm, hm))
+    (a : Nat) (i : Instr) (st : AbsSt) (p q : Nat)
+    (hi : md.code[a]? = some i) (hs : hm[a]? = some (some st)) (he : simpleEffect i = some (p, q)) (hj : i.op ≠ .JUMPZ) :
+    ∃ st', hm[a + 1]? = some (some st') ∧ p ≤ st.h ∧ st'.h + p = st.h + q := by
+  obtain ⟨_, hf⟩ := verifyH_ok md sm hm hv
+  unfold flowOk at hf
+  have ha : a < md.code.size := by
+    rcases Nat.lt_or_ge a md.code.size with h | h
+    · exact h
+    · rw [Array.getElem?_eq_none (by omega)] at hi; cases hi
+  have := (List.all_eq_true.mp hf) a (List.mem_range.mpr ha)
+  unfold flowOkAt at this
+  simp only [hi, hs, he] at this
+  have hj' : (i.op == Opc.JUMPZ) = false := by simpa using hj
+  simp only [hj'] at this
+  cases hn : hm[a + 1]? with
+  | none => simp [hn] at this
+  | some o =>
+    cases o with
+    | none => simp [hn] at this
+    | some st' =>
+      simp [hn] at this
+      exact ⟨st', rfl, this.1, this.2⟩
+
+/-- **A verified module runs at the verified heights, instruction by instruction.**  Let the machine be running at an
+address `a` of a verified module that holds an instruction of the effect table (not `JUMPZ`), with
+`sp = base + h(a)` for the height `h(a)` the verifier recorded (`base` = `pp + nparams` of the running function). After one
+`step`: the frame registers are unchanged and either the machine is running at `a + 1` with `sp = base + h(a + 1)` — the
+recorded height of that address —, or an exception was raised and control is at the handler the (well-formed) exception
+table assigns to `a`, or the machine stopped in VM_ERROR. -/
+theorem verified_step_keeps_height (md : Module) (orc : Oracle) (sm : Summary) (hm : HMap) (hv : verifyH md = .ok (sm, hm))
+    (vm vm' : Vm) (i : Instr) (st : AbsSt) (p q : Nat) (base : Int)
+    (hi : md.code[vm.ip]? = some i) (hs : hm[vm.ip]? = some (some st)) (he : simpleEffect i = some (p, q)) (hj : i.op ≠ .JUMPZ)
+    (hrun : vm.running = 1) (hinv : vm.sp = base + (st.h : Int))
+    (hstep : (step md orc).run vm = .ok ((), vm')) :
+    vm'.fp = vm.fp ∧ vm'.pp = vm.pp ∧ vm'.stackSize = vm.stackSize ∧
+    ((vm'.running = 1 ∧ vm'.ip = vm.ip + 1 ∧ ∃ st', hm[vm'.ip]? = some (some st') ∧ vm'.sp = base + (st'.h : Int)) ∨
+     (vm'.running = 1 ∧ excHandler md.exctab md.excCount vm.ip = some vm'.ip) ∨
+     vm'.running = 3) := by
+  obtain ⟨st', h1, h2, h3⟩ := verified_flow md sm hm hv vm.ip i st p q hi hs he hj
+  obtain ⟨a1, a2, a3, a4⟩ := step_table md orc vm vm' i p q hi hrun he hj hstep
+  refine ⟨a1, a2, a3, ?_⟩
+  rcases a4 with ⟨r, hip, hsp⟩ | a4 | a4
+  · left
+    refine ⟨r, hip, st', by rw [hip]; exact h1, ?_⟩
+    omega
+  · right; left; exact a4
+  · right; right; exact a4
+
+/-- a module that verifies (`7 + 5` and HALT, one catch-all handler): the hypotheses of `verified_step_keeps_height` are met
+at address 2, where `OP_ADD_INT` runs at the recorded height 2 and leaves height 1 -/
+def tinyModule : Module := { code := #[⟨.INT, 7, 0, 0⟩, ⟨.INT, 5, 0, 0⟩, ⟨.OP_ADD_INT, 0, 0, 0⟩, ⟨.HALT, 0, 0, 0⟩, ⟨.UNHANDLED_EXCEPTION, 0, 0, 0⟩], strtab := #[], exctab := #[⟨0, 4⟩, ⟨4294967295, 0⟩], excCount := 1, codeEntry := 0, entryAddr := 0, params := [] }
+example : (match verifyH tinyModule with
+    | .ok (_, hm) => (hm.toList.map fun o => o.map (·.h)) == [some 0, some 1, some 2, some 1, some 0]
+    | .error _ => false) = true := by decide +kernel
 
 /-- how many opcodes that theorem covers (of `Opc.all`) — not vacuous -/
 example : (Opc.all.toList.filter isArith).length = 77 := by decide +kernel
